@@ -1,4 +1,4 @@
-//! C05 counterexample search (run after a Verus unit of C05 failed or could not decide, and in the thorough tier):
+//! C05 native search (a bounded exploration of the real crate, run on every check; it also supplies the concrete input when a Verus obligation of the property fails):
 //! on the real crate, for small values of 20 record data types (boundary field values, mixed-case names, empty and
 //! short octet fields, type bitmaps with full 32-octet windows): rdlen() equals the number of octets compose_rdata()
 //! writes; parsing those octets gives an equal value and consumes everything; the canonical form equals the wire form
